@@ -414,13 +414,13 @@ func (r *runner) line(line string) string {
 	case "firstuse":
 		return r.firstUse(f)
 	case "cont":
-		return r.newCont(f)
+		return r.construct(f, r.newCont)
 	case "lock":
-		return r.newLock(f)
+		return r.construct(f, r.newLock)
 	case "wl":
-		return r.newWL(f)
+		return r.construct(f, r.newWL)
 	case "locks":
-		return r.newLocks(f)
+		return r.construct(f, r.newLocks)
 	case "acq", "rel", "acqx", "acqd":
 		return r.locksOp(f)
 	case "bset", "bdel", "bprobe":
@@ -823,6 +823,31 @@ func firstUseChild(args []string) {
 		return
 	}
 	fmt.Println("ok")
+}
+
+// construct: building a sharded container with a legal shard count must not panic (the constructors index their shard slice)
+func (r *runner) construct(f []string, mk func([]string) string) string {
+	out, p := guardS(func() string { return mk(f) })
+	if p {
+		name := "container"
+		if len(f) > 1 {
+			kind := f[1]
+			if strings.HasPrefix(kind, "semap") {
+				kind = "semap"
+			}
+			switch {
+			case f[0] == "cont":
+				name = contName[kind]
+			case f[0] == "wl":
+				name = map[string]string{"lru": "cache.WideLRUCache", "tlru": "tiny.WideLRUCache"}[kind]
+			default:
+				name = lockName[kind]
+			}
+		}
+		r.mode = ""
+		r.hit("C17:"+name+":constructor-panics", fmt.Sprintf("`%s`: the constructor panicked for a legal shard count", strings.Join(f, " ")))
+	}
+	return out
 }
 
 // hitGroupUnsupported: one root cause (ToBytes has no HitGroup arm), one key, whichever entry point shows it
